@@ -124,3 +124,48 @@ pub fn rfail_arr_tracked() {
         Err(e) => { core::mem::forget(e); assert!(false, "[C14/fail.kind] a reader failure is reported as a read error") }
     };
 }
+
+/// the entry point (header included): a reader that fails at any position of the
+/// stream - also inside the header's type-name string, also when the type has
+/// no payload bytes at all - makes `deserialize_full` fail with a read error
+macro_rules! rfail_entry {
+    ($name:ident, $t:ty, $cap:expr, $unw:expr) => {
+        #[kani::proof]
+        #[kani::unwind($unw)]
+        #[kani::stub(std::string::String::from_utf8, crate::lemmas::stub_from_utf8)]
+        pub fn $name() {
+            use epserde::deser::Deserialize;
+            use epserde::ser::Serialize;
+            let v = <$t as Sym>::sym(0);
+            let mut sink = ArrSink::<$cap>::new();
+            let r = v.serialize(&mut sink);
+            assert!(r.is_ok(), "[C01/ser.ok] serialization into an infallible sink succeeds");
+            core::mem::forget(r);
+            let n = sink.len;
+            let k: usize = kani::any();
+            kani::assume(k < n);
+            // persistent failure = truncated stream
+            let mut src = FailingReader { data: &sink.buf[..n], off: 0, fail_at: k };
+            match <$t>::deserialize_full(&mut src) {
+                Ok(_) => {
+                    assert!(false, "[C14/fail.never_ok] a reader that fails before the end never yields a value");
+                    assert!(false, "[C11/full.never_ok] a strict prefix is never full-copy deserialized into a value");
+                }
+                Err(deser::Error::ReadError) => {}
+                Err(e) => { core::mem::forget(e); assert!(false, "[C14/fail.kind] a reader failure is reported as a read error") }
+            };
+            // transient failure: one refused request, then the reader serves again
+            let mut once = OnceFailingReader { data: &sink.buf[..n], off: 0, fail_at: k, failed: false };
+            match <$t>::deserialize_full(&mut once) {
+                Ok(_) => assert!(false, "[C14/fail.never_ok] a reader that fails before the end never yields a value"),
+                Err(deser::Error::ReadError) => {}
+                Err(e) => { core::mem::forget(e); assert!(false, "[C14/fail.kind] a reader failure is reported as a read error") }
+            };
+            kani::cover!(k >= 29, "[cover] failure inside the type-name string or the payload reached");
+        }
+    };
+}
+// @h rfail_entry_unit props=C14,C11 tier=quick kind=complete vars="v:() (no payload bytes) through deserialize_full; failure position k<len (any), persistent and transient" fns="deser/mod.rs:deserialize_full,deser/mod.rs:check_header"
+rfail_entry!(rfail_entry_unit, (), 64, 12);
+// @h rfail_entry_u8 props=C14,C11 tier=quick kind=complete vars="v:u8 through deserialize_full; failure position k<len (any), persistent and transient" fns="deser/mod.rs:deserialize_full,deser/mod.rs:check_header"
+rfail_entry!(rfail_entry_u8, u8, 64, 12);
